@@ -466,15 +466,15 @@ def random_flat(rng, n, max_T=8, min_T=0, est_cap=3e5):
                     continue
                 cons.append(K(kind, k=k, f=fid, l=l))
             elif kind == "ExactlyK":
-                if cx:
+                if cx and rng.random() < 0.5:
                     continue
                 cons.append(K(kind, k=rng.randrange(0, min(T, 4) + 1) if False else rng.randrange(1, min(T, 4) + 1), f=fid, l=l))
             elif kind == "Pin":
-                if cx or l == 0:
+                if l == 0 or (cx and rng.random() < 0.5):
                     continue
                 cons.append(K(kind, i=rng.choice([0, 1, T - 1, -1, -2, T, -T - 1]), f=fid, l=l))
             elif kind == "Exclude":
-                if l == 0 or cx:
+                if l == 0 or (cx and rng.random() < 0.5):
                     continue
                 if any(c["c"] == "Exclude" and c["f"] == fid for c in cons):
                     continue
@@ -673,6 +673,19 @@ def derivation_cases(rng, n_random=0):
         mk("win1-stride%d" % stride, f1, [1, 2], ["derivation", "window", "stride"], [K("MinimumTrials", k=6)])
     f = derived(B, "d", [1], "window", width=3, table=eq_table(B, [1], 3))
     mk("win3", f, [1], ["derivation", "window", "width3"], [K("MinimumTrials", k=5)])
+    # width 3 with a start before the full window: the window is only partly before trial 0 at trial 1 (None, x, y);
+    # an n-back style table that looks at the positions that DO exist
+    for start in (0, 1):
+        np_ = none_positions(B, [1], 3, start)
+        dom = window_domain(B, [1], 3, np_)
+        back1 = [t for t in dom if t[1] != 0 and t[1] == t[2]]
+        back2 = [t for t in dom if t not in back1 and t[0] != 0 and t[0] == t[2]]
+        fresh = [t for t in dom if t not in back1 and t not in back2]
+        f = derived(B, "d", [1], "window", width=3, start=start, nl=3, table=[back1, back2, fresh])
+        mk("win3-start%d" % start, f, [1], ["derivation", "window", "width3", "start-before-default"], [K("MinimumTrials", k=4)])
+        mk("win3-start%d-x" % start, f, [3], ["derivation", "window", "width3", "start-before-default", "crossed"])
+        mk("win3-start%d-exk" % start, f, [1], ["derivation", "window", "width3", "start-before-default", "ExactlyK"],
+           [K("MinimumTrials", k=4), K("ExactlyK", k=1, f=3, l=1)])
     # partial / ambiguous transitions
     f = derived(B, "d", [1], "transition", table=[[[1, 1]], [[1, 2], [2, 1]]])
     mk("transition-partial", f, [1], ["derivation", "partial", "transition"])
